@@ -78,15 +78,22 @@ func Run(c *core.Ctx) {
 			continue
 		}
 		stable := cs.P2 == cs.P1
+		layoutPredicted := fmttie.Squash(m2) == fmttie.Squash(cs.P2)
 		if stable {
 			c.Hist("stable after one pass")
 		} else {
 			nUnstable++
 			c.Hist("NOT stable after one pass")
+			// shape: the first applicable cause
 			shape := ""
-			if len(reasons) > 0 {
+			switch {
+			case !cs.SameStructure:
+				shape = "ReparsedStructureDiffers" // printed text is read back as other syntax (e.g. text beginning `else {` after an if)
+			case len(reasons) > 0:
 				shape = reasons[0]
-			} else {
+			case layoutPredicted && m2 != cs.P2:
+				shape = "PaddingGrows:" + textShape(cs.P1, cs.P2)
+			default:
 				shape = textShape(cs.P1, cs.P2)
 			}
 			prop = false
@@ -98,20 +105,17 @@ func Run(c *core.Ctx) {
 					"formatting the formatter's output changes it")
 			}
 		}
-		// the layout model must predict the second pass whenever the instability is a layout one
-		if m2 != cs.P2 && (len(reasons) > 0 || stable) {
+		// the layout model must predict the second pass (up to padding inside a line) whenever the structure is re-read unchanged
+		if cs.SameStructure && !layoutPredicted {
 			tie2 = false
 			if c.NFails("formatter: model second pass (reparse) = real second pass") < 3 {
-				a, b := firstDiffLine(m2, cs.P2)
+				a, b := firstDiffLine(fmttie.Squash(m2), fmttie.Squash(cs.P2))
 				c.Fail("tie", "formatter: model second pass (reparse) = real second pass", "", map[string]string{"file": cs.Name, "source": cs.Src, "model_line": a, "impl_line": b}, "second pass differs from the prediction")
 			}
 		}
-		if (len(reasons) == 0) != stable && m2 == cs.P2 {
-			// reasons empty but unstable (expression text) is expected; reasons non-empty but stable would be a model error
-			if stable {
-				tie2 = false
-				c.Fail("tie", "unstable_reasons empty iff layout stable", "", map[string]any{"file": cs.Name, "source": cs.Src, "reasons": reasons}, "model names a reason but the layout is stable")
-			}
+		if len(reasons) > 0 && stable {
+			tie2 = false
+			c.Fail("tie", "unstable_reasons empty iff layout stable", "", map[string]any{"file": cs.Name, "source": cs.Src, "reasons": reasons}, "model names a reason but the layout is stable")
 		}
 		if cs.P3 != "" && cs.P3 != cs.P2 {
 			c.Hist("third pass differs from second")
